@@ -355,6 +355,9 @@ func checkC01(c *Ctx) {
 		c.checkGapSafeDeletes("O9 lock-gap", fM, eng, clr)
 		c.checkPurgeOnlyFromClose("O9 purge-only-from-close")
 		c.checkDoubleChecked("O10 double-checked", eng)
+		// what is pending when the root is closed is delivered by the final report: Close waits for the
+		// periodic pass first, then reports and flushes (shared with C08 O1)
+		c.shared(checkC08, map[string]string{"O1 close-chain": "O11 final-report", "O1 report-then-flush": "O11 report-then-flush"})
 	} else {
 		c.missing("O9 report-before-clear", "tally.scopeBucket.s / scope.clearMetrics")
 	}
